@@ -12,6 +12,9 @@ def run(pid, tier, seed, own):
                                   label='counts <= 2, rich optional domains')
         traces += genprops.collect(rep, pool, tier, seed + 1, perturb=False, nseeds=1 if q else 4, maxn=3, rich=False,
                                    label='counts <= 3')
+        # quotas / targets / projects per lecturer with every kind of remainder (n2 mod n3 in 0..n3-1)
+        traces += genprops.collect(rep, pool, tier, seed + 3, perturb=False, nseeds=1, maxn=2, rich=False, types={'spa'},
+                                   counts={'n1': {2}, 'n2': {5, 6, 7}, 'n3': {4, 5}}, label='spread stress: n2 in 5..7, n3 in 4..5')
         if not q:
             traces += genprops.collect(rep, pool, tier, seed + 2, perturb=False, nseeds=1, maxn=4, rich=False, label='counts <= 4')
         # the possibility statement "every list length in [pmin, pmax] can occur": extra seeds for some vectors
